@@ -11,11 +11,10 @@ EXTENDS Naturals, Sequences, SequencesExt, Text
 EMPTY64 == << 149, 167, 215, 164, 58, 33, 93, 193 >>
 ZERO64 == << 0, 0, 0, 0, 0, 0, 0, 0 >>
 
-\* XOR of two 4-bit values, by bits
+\* XOR of two bytes, bit by bit (no tables: TLC does not reliably cache table-valued constant definitions)
 Bx(a, b, w) == ((((a \div w) % 2) + ((b \div w) % 2)) % 2)
-XorNib(a, b) == Bx(a, b, 1) + (2 * Bx(a, b, 2)) + (4 * Bx(a, b, 4)) + (8 * Bx(a, b, 8))
-NibTable == Mat([a \in 1..16 |-> Mat([b \in 1..16 |-> XorNib(a - 1, b - 1)])])
-XorByte(a, b) == 16 * NibTable[(a \div 16) + 1][(b \div 16) + 1] + NibTable[(a % 16) + 1][(b % 16) + 1]
+XorByte(a, b) == Bx(a, b, 1) + (2 * Bx(a, b, 2)) + (4 * Bx(a, b, 4)) + (8 * Bx(a, b, 8))
+               + (16 * Bx(a, b, 16)) + (32 * Bx(a, b, 32)) + (64 * Bx(a, b, 64)) + (128 * Bx(a, b, 128))
 Xor64(x, y) == << XorByte(x[1], y[1]), XorByte(x[2], y[2]), XorByte(x[3], y[3]), XorByte(x[4], y[4]),
                   XorByte(x[5], y[5]), XorByte(x[6], y[6]), XorByte(x[7], y[7]), XorByte(x[8], y[8]) >>
 \* logical shift right by one bit / by one byte
@@ -33,9 +32,10 @@ Step8(x) == Step1(Step1(Step1(Step1(Step1(Step1(Step1(Step1(x))))))))
 TableEntry(i) == Step8(<< i, 0, 0, 0, 0, 0, 0, 0 >>)
 FPTable == Mat([i \in 1..256 |-> TableEntry(i - 1)])
 
-\* table-driven form
-FPStep(fp, b) == Xor64(Shr8(fp), FPTable[XorByte(fp[1], b) + 1])
-FP(bytes) == FoldLeft(FPStep, EMPTY64, bytes)
+\* table-driven form; the table is bound once per fingerprint (LET values are computed once)
+FPStepT(T, fp, b) == Xor64(Shr8(fp), T[XorByte(fp[1], b) + 1])
+FPStep(fp, b) == Xor64(Shr8(fp), TableEntry(XorByte(fp[1], b)))
+FP(bytes) == LET T == FPTable IN FoldLeft(LAMBDA fp, b : FPStepT(T, fp, b), EMPTY64, bytes)
 
 \* bit-serial form: xor the byte into the low byte, then eight single-bit steps
 FPStepSerial(fp, b) == Step8(<< XorByte(fp[1], b), fp[2], fp[3], fp[4], fp[5], fp[6], fp[7], fp[8] >>)
